@@ -139,11 +139,36 @@ fn routes_agree(mode: GameMode, pts: &[PathControlPoint], len: Option<f64>) -> R
     if !same_curve(want.path(), want.lengths(), sp.curve()) {
         return Err("the slider path's curve after setting the requested length through expected_dist_mut differs from the fresh owned curve".into());
     }
-    let mut sp = SliderPath::new(mode, dirty, len);
+    let mut sp = SliderPath::new(mode, dirty.clone(), len);
     let _ = sp.curve_with_bufs(&mut bufs);
     *sp.control_points_mut() = pts.to_vec();
     if !same_curve(want.path(), want.lengths(), sp.curve_with_bufs(&mut bufs)) {
         return Err("the slider path's curve after replacing the control points through control_points_mut differs from the fresh owned curve".into());
+    }
+    // replacing a whole path by another one (Clone::clone_from / clone, of a source whose curve was never computed or was) is
+    // one more way of giving it these control points and this length (seed C16-n: a hand-written clone_from that keeps the
+    // destination's cached curve when the source has none)
+    for src_cached in [false, true] {
+        let mut dst = SliderPath::new(mode, dirty.clone(), Some(80.0));
+        let _ = dst.curve();
+        let mut src = SliderPath::new(mode, pts.to_vec(), len);
+        if src_cached {
+            let _ = src.curve();
+        }
+        dst.clone_from(&src);
+        if !same_curve(want.path(), want.lengths(), dst.curve()) {
+            return Err(format!("the curve of a slider path overwritten by clone_from (source curve {}computed) differs from the fresh owned curve", if src_cached { "" } else { "not " }));
+        }
+        let mut cl = src.clone();
+        if !same_curve(want.path(), want.lengths(), cl.curve()) {
+            return Err("the curve of a cloned slider path differs from the fresh owned curve".into());
+        }
+        let mut v = vec![SliderPath::new(mode, dirty.clone(), Some(80.0))];
+        let _ = v[0].curve();
+        v.clone_from(&vec![src.clone()]);
+        if !same_curve(want.path(), want.lengths(), v[0].curve()) {
+            return Err("the curve of a slider path inside a Vec overwritten by clone_from differs from the fresh owned curve".into());
+        }
     }
     Ok(())
 }
@@ -607,6 +632,14 @@ fn same_curve(path: &[Pos], lengths: &[f64], c: &Curve) -> bool {
         && lengths.iter().zip(c.lengths()).all(|(a, b)| a.to_bits() == b.to_bits())
 }
 
+/// `dist()` and `progress_to_dist()` of a route against the fresh owned curve's, bit for bit (they are derived from the lengths,
+/// but an implementation may cache them: seed C18-n)
+fn same_scalars(dist: f64, p2d: &dyn Fn(f64) -> f64, want: &Curve) -> bool {
+    dist.to_bits() == want.dist().to_bits()
+        && [-0.5f64, 0.0, 0.3, 1.0, 2.0].iter().all(|q| p2d(*q).to_bits() == want.progress_to_dist(*q).to_bits())
+        && want.lengths().last().map_or(true, |l| l.to_bits() == want.dist().to_bits())
+}
+
 fn c18(toks: &[&str]) -> String {
     let Some(req) = parse_seq_req(toks) else { return "SKIP bad-request".into() };
     let mut bufs = CurveBuffers::default();
@@ -625,11 +658,17 @@ fn c18(toks: &[&str]) -> String {
                     let c = Curve::new(req.mode, pts, l, &mut bufs);
                     let back = c.as_borrowed_curve().to_owned_curve();
                     // bit-wise comparison (a NaN vertex, findings F11/F13, is not `==` to itself)
+                    let bc = c.as_borrowed_curve();
                     same_curve(c.path(), c.lengths(), &want) && same_curve(back.path(), back.lengths(), &want)
+                        && same_scalars(c.dist(), &|q| c.progress_to_dist(q), &want)
+                        && same_scalars(bc.dist(), &|q| bc.progress_to_dist(q), &want)
+                        && same_scalars(back.dist(), &|q| back.progress_to_dist(q), &want)
                 } else {
                     let c = BorrowedCurve::new(req.mode, pts, l, &mut bufs);
                     let own = c.to_owned_curve();
                     same_curve(c.path(), c.lengths(), &want) && same_curve(own.path(), own.lengths(), &want)
+                        && same_scalars(c.dist(), &|q| c.progress_to_dist(q), &want)
+                        && same_scalars(own.dist(), &|q| own.progress_to_dist(q), &want)
                 };
                 (ok, pts.is_empty())
             }
@@ -638,15 +677,15 @@ fn c18(toks: &[&str]) -> String {
                 let ok = match kind {
                     "c" => {
                         let c = sp.curve();
-                        same_curve(c.path(), c.lengths(), &want)
+                        same_curve(c.path(), c.lengths(), &want) && same_scalars(c.dist(), &|q| c.progress_to_dist(q), &want)
                     }
                     "w" => {
                         let c = sp.curve_with_bufs(&mut bufs);
-                        same_curve(c.path(), c.lengths(), &want)
+                        same_curve(c.path(), c.lengths(), &want) && same_scalars(c.dist(), &|q| c.progress_to_dist(q), &want)
                     }
                     _ => {
                         let c = sp.borrowed_curve(&mut bufs);
-                        same_curve(c.path(), c.lengths(), &want)
+                        same_curve(c.path(), c.lengths(), &want) && same_scalars(c.dist(), &|q| c.progress_to_dist(q), &want)
                     }
                 };
                 let consistent = sp.control_points() == cur_pts.as_slice()
